@@ -5,30 +5,45 @@
 // Contract of remove_segment(&self, segment, vehicle_idx) (vocabulary in env/remove_segment_shim.vs; t = the provider's
 // tour, lo / hi = t.index_of(segment.start / end), removed = t.mid(lo, hi + 1), kept = t.rest(lo, hi + 1) as in the
 // contract of Tour::remove):
-//   * Err if the vehicle is not a real vehicle; Err if Tour::remove refuses (C12: segment not in the tour, would strand a
-//     depot, would leave an unconnectable gap);
-//   * otherwise the result is either that of replace_vehicle_by_dummy (uninterpreted here: spec_replace_by_dummy) -- and
-//     it IS that result when fewer than 3 nodes are kept -- or Ok with exactly this effect:
-//     vehicle set / grouped id lists / network unchanged; tours[v].nodes == kept (real, well-formed, caches exact); every
-//     other key of `tours` keeps its tour, same key set; if `removed` contains a service trip, a NEW dummy tour under
-//     VehicleIdx::Dummy(self.vehicle_counter as Idx) (an id not in use) holds exactly the service trips of `removed` in
-//     order, all other dummy tours are untouched, the sorted id list gains exactly that id and stays sorted, and the
-//     counter advances by one (fresh_dummy_id); without a service trip dummy tours, id list and counter are unchanged;
+//   * Err IFF the vehicle is not a real vehicle, or Tour::remove refuses (C12: segment not in the tour, would strand a
+//     depot, would leave an unconnectable gap), or (D11) `removed` holds a service trip -- a new dummy tour is needed -- and
+//     all 2^16 ids have been handed out (vehicle_counter > 0xffff; id_left);
+//   * the case split is deterministic (Tour::remove returns no tour iff nothing but depots would be left,
+//     C13.remove.no_tour_iff_no_activity_left): whole_tour <=> kept.len() <= 2;
+//   * WHOLE-TOUR CASE ("If the segment contains all non-depot nodes of the tour, the vehicle is replaced by a dummy"): the
+//     result is the one of replace_vehicle_by_dummy, whose verified contract (slices/dummy_ops.vs) is stubbed here with the
+//     same text: vehicle_gone (no vehicle / tour under the id, exactly one occurrence of the id leaves the sorted id list of
+//     its type, which stays sorted), trips_in_new_dummy / no_new_dummy (ONE new dummy tour under the unused id
+//     Dummy(vehicle_counter) holds exactly the service trips of the tour in order; none without a service trip),
+//     others_untouched (vehicles - v, tours - v as map equalities; the id lists of the other types, every dummy tour that was
+//     there, the network), costs = old - old tour;
+//   * PARTIAL CASE (3 or more nodes kept): vehicle set / grouped id lists / network unchanged; tours[v].nodes == kept (real,
+//     well-formed, caches exact); every other key of `tours` keeps its tour, same key set; costs = old - old tour + new tour;
+//   * BOTH CASES (in the whole-tour case derived from the callee's contract, which speaks about the nodes of the whole tour =
+//     `removed` with at most the two depots around it: lemma_whole_tour_case): if `removed` contains a service trip, a NEW
+//     dummy tour under VehicleIdx::Dummy(self.vehicle_counter as Idx) (an id not in use) holds exactly the service trips of
+//     `removed` in order, all other dummy tours are untouched, the sorted id list gains exactly that id and stays sorted, and
+//     the counter advances by one (fresh_dummy_id); without a service trip dummy tours, id list and counter are unchanged;
 //     formations: same key set, only the removed activities change, there the provider leaves (order kept);
-//     unserved passengers: exact delta; costs = old - old tour + new tour; depot usage exact for the new maps; rotation
-//     cycles consistent with the new tours, membership, violation sum, other types untouched; ids_ok preserved.
+//     unserved passengers: exact delta over `removed`; depot usage exact for the new maps; rotation cycles consistent with the
+//     new vehicles / tours, membership, violation sum, other types untouched; ids_ok preserved.
 //
 // ASSUMPTIONS introduced by this slice (env/remove_segment_shim.vs unless said otherwise):
 //   A-std7   <[T]>::binary_search (result on a slice sorted w.r.t. Ord::cmp, transcribed from the std documentation),
 //            Result::unwrap_or_else                                                      -- assume_specification
 //   A-derive derived PartialOrd / Ord of VehicleIdx: variant order, then the index (vidx_rank)  -- *SpecImpl
 //   A-display `{}` of Segment has no precondition (no-op Display impl below)              -- DisplaySpecImpl
-//   A-stub   Schedule::replace_vehicle_by_dummy: `r == spec_replace_by_dummy(self, v)` (uninterpreted; R7b)
 //   A-iter   Path::iter yields the node sequence (SeqIter, as in the other slices; R7b)
-//   stubs with the contract text of the slice that verifies them (R7a): Tour::remove, Tour::new_computing (tour_mod),
+//   stubs with the contract text of the slice that verifies them (R7a; `python3 tools/stub_sync.py slices/remove_segment.vs`
+//            reports 0 differences): Tour::remove, Tour::new_computing (tour_mod),
 //            Schedule::update_tour_and_costs, Schedule::update_depot_usage (depot_usage),
 //            Schedule::update_transitions_and_violation_fast (sched_guard),
-//            Schedule::update_train_formation (train_formation_update; R12 parameter type SeqIter<NodeIdx>)
+//            Schedule::update_train_formation (train_formation_update; R12 parameter type SeqIter<NodeIdx>),
+//            Schedule::replace_vehicle_by_dummy (dummy_ops; NO LONGER an uninterpreted stub: the former A-stub
+//            `r == spec_replace_by_dummy(self, v)` is gone.  Its vocabulary -- listed_ok, needs_dummy, rd_id_left, vehicle_gone,
+//            trips_in_new_dummy, no_new_dummy, others_untouched, rd_formations_follow, rd_unserved_follow, rd_transitions_follow,
+//            ids_lose, Schedule::listing -- is copied, text unchanged, from env/dummy_ops_shim.vs / env/spawn_vehicle_shim.vs
+//            into env/remove_segment_shim.vs: open spec functions only, no assumption; see the header of that file.)
 //   plus the shared ones: env/im_shim.vs (im::HashMap / Vec::retain), env/schedule_shim.vs (im::HashSet, sched_vehicles),
 //            env/seqiter.vs, env/model_fns.vs / time_ops.vs / dist_ops.vs included trusted, key model of the index types.
 //
@@ -38,16 +53,24 @@
 //                  formation; it lists the vehicles whose tours contain the node) + transitions_ok (the old-schedule
 //                  clauses of upd_pre, fewer than 2^17 vehicles) + usage_exact
 //   segment ends are nodes of the network
-//   A-idwidth      self.vehicle_counter <= 0xffff: `self.vehicle_counter as Idx` truncates to 16 bit; beyond that the
-//                  "new" id wraps around and may overwrite an existing dummy tour (see the report of this slice)
 //   A-counter      shrunk_counter_ok: the maintenance counter of the shrunk tour is small (tour_counter is an
-//                  uninterpreted atom of env/transition_spec.vs, so the magnitude cannot be derived here)
+//                  uninterpreted atom of env/transition_spec.vs, so the magnitude cannot be derived here); vacuous in the
+//                  whole-tour case (no tour of fewer than 3 nodes is a real tour)
 //   tfu_pre        the precondition of update_train_formation for the removed nodes (u32 magnitudes, the trips' vehicle
-//                  types, C09 for the unserved-passenger pair); required as is, not derived from rs_ok
+//                  types, C09 for the unserved-passenger pair); required as is, not derived from rs_ok.  In the whole-tour
+//                  case replace_vehicle_by_dummy needs it for the nodes of the WHOLE tour: derived from the one for the
+//                  removed nodes (lemma_tfu_pre_around: depots have no formation and no passengers), NOT a new precondition
+//   listed_ok      WHOLE-TOUR CASE ONLY (guarded by removes && whole_tour), NEW: the precondition of replace_vehicle_by_dummy,
+//                  C10 "vehicle … listings are sorted and match the stored tours" for the vehicle that goes: its type has an id
+//                  list, sorted, holding the id.  Not derivable from rs_ok (sched_ok speaks about the uninterpreted listing
+//                  sched_vehicles, not about vehicle_ids_grouped_and_sorted)
+//   (no precondition on the counter: D11 is fixed in /repo, the operation refuses when an id is needed and none is left)
 //
-// NOT covered: which of the two cases applies when 3 or more nodes are kept (Tour::remove's contract does not say when
-//   the shrunk tour is None); replace_vehicle_by_dummy itself; preservation of rs_ok as a whole (only ids_ok, usage_exact
-//   and the transition clauses are shown for the result); connectedness of the new dummy tour (A-path / D9).
+// NOT covered: preservation of rs_ok / listed_ok as a whole (only ids_ok, usage_exact, the transition clauses and -- in the
+//   whole-tour case -- sortedness of the vehicle's id list are shown for the result); connectedness of the new dummy tour
+//   (A-path / D9); that the callers establish listed_ok in the whole-tour case; the error messages.
+//   slices/swaps_sem.vs still stubs remove_segment with the PREVIOUS contract text (to be synced; env/remove_segment_shim.vs
+//   keeps the now unused `spec_replace_by_dummy` for it).
 #![feature(allocator_api)]
 use vstd::prelude::*;
 use std::ops::Add;
@@ -200,11 +223,46 @@ use self::tfu::*;
 //@end
 
 // ---- Schedule: trusted stubs ----------------------------------------------------------------------------
-// not under contract: the whole-tour case delegates to it
+// verified in slice dummy_ops; contract text copied from there (vocabulary: block "Schedule::replace_vehicle_by_dummy"
+// of env/remove_segment_shim.vs).
+// The whole-tour case of remove_segment delegates to it.
 //@item solution/src/schedule/modifications.rs Schedule::replace_vehicle_by_dummy : trusted
 //@retname r
 //@sig
-    ensures r == spec_replace_by_dummy(self, vehicle_idx),
+    requires
+        self.rs_ok(),
+        // C10 listings, as far as the body needs them (`[&vehicle_type_id]`, `binary_search(..).unwrap()`)
+        self.vehicles@.contains_key(vehicle_idx) ==> self.listed_ok(vehicle_idx),
+        // caller-side: the precondition of the formation bookkeeping for the nodes of the tour (u32 magnitudes of the
+        // formations' capacities, the trips' vehicle types are types of the network, and C09 for the
+        // unserved-passenger pair: it covers the tour's contribution) -- not derived from rs_ok
+        self.vehicles@.contains_key(vehicle_idx) ==> self.tfu_pre(self.train_formations@, self.unserved_passengers,
+            Some(vehicle_idx), None::<Vehicle>, self.tours@[vehicle_idx].nodes@),
+    ensures
+        // "# Errors: If the vehicle is not a real vehicle an error is returned." -- and in no other case ...
+        !self.vehicles@.contains_key(vehicle_idx) ==> r is Err, // @obl C13.replace_by_dummy.err_iff_not_a_real_vehicle
+        self.vehicles@.contains_key(vehicle_idx) && self.rd_id_left(vehicle_idx) ==> r is Ok, // @obl C13.replace_by_dummy.err_iff_not_a_real_vehicle
+        // ... but D11: ids are 16 bit and never reused: when all 2^16 have been handed out and the trips of the tour need a
+        // new dummy tour, the modification is refused (the unfixed code wrapped around and overwrote the tour under id 0)
+        self.vehicles@.contains_key(vehicle_idx) && !self.rd_id_left(vehicle_idx) ==> r is Err, // @obl C13.replace_by_dummy.refuses_instead_of_reusing_an_id
+        // C13 "a vehicle left without activities disappears … service trips are handed back (… in a new dummy tour)"
+        r is Ok ==> self.vehicle_gone(vehicle_idx, &r->Ok_0), // @obl C13.replace_by_dummy.vehicle_disappears_trips_go_to_one_new_dummy
+        r is Ok && self.needs_dummy(vehicle_idx) ==> self.trips_in_new_dummy(vehicle_idx, &r->Ok_0), // @obl C13.replace_by_dummy.vehicle_disappears_trips_go_to_one_new_dummy
+        r is Ok && !self.needs_dummy(vehicle_idx) ==> self.no_new_dummy(&r->Ok_0), // @obl C13.replace_by_dummy.vehicle_disappears_trips_go_to_one_new_dummy
+        // C13 "all other vehicles' tours … stay untouched"
+        r is Ok ==> self.others_untouched(vehicle_idx, &r->Ok_0), // @obl C13.replace_by_dummy.everything_else_untouched
+        // C13 "formations elsewhere … stay untouched": the vehicle leaves the formation of every activity of its tour
+        r is Ok ==> self.rd_formations_follow(vehicle_idx, &r->Ok_0), // @obl C13.replace_by_dummy.formations_follow_update_train_formation
+        // C09 "cached aggregates equal recomputation"
+        r is Ok ==> self.rd_unserved_follow(vehicle_idx, &r->Ok_0), // @obl C09.replace_by_dummy.unserved_passengers_delta_exact
+        r is Ok ==> r->Ok_0.costs == self.costs - self.tours@[vehicle_idx].costs, // @obl C09.replace_by_dummy.costs_minus_tour_costs
+        r is Ok ==> usage_exact_for(r->Ok_0.depot_usage@, &self.network, r->Ok_0.vehicles@, r->Ok_0.tours@, vehicle_idx)
+            && usage_same_except(self.depot_usage@, r->Ok_0.depot_usage@, vehicle_idx)
+            && usage_exact(r->Ok_0.depot_usage@, &self.network, r->Ok_0.vehicles@, r->Ok_0.tours@), // @obl C09.replace_by_dummy.depot_usage_exact
+        // C15 / C10 / C09: rotation cycles and maintenance violation
+        r is Ok ==> self.rd_transitions_follow(vehicle_idx, &r->Ok_0), // @obl C10.replace_by_dummy.transitions_follow
+        // C10: the ids stay valid (in particular every dummy id is below the counter: the next id is fresh again)
+        r is Ok ==> r->Ok_0.ids_ok(), // @obl C10.replace_by_dummy.ids_stay_valid
 //@end
 // verified in slice train_formation_update; contract text copied from there (R12: the parameter
 // `moved_nodes: impl Iterator<Item = NodeIdx>` is retyped to the shim iterator SeqIter<NodeIdx>)
@@ -342,48 +400,81 @@ use self::tfu::*;
         // unserved-passenger pair: it covers the removed nodes' contribution) -- not derived from rs_ok
         self.removes(segment, vehicle_idx) ==> self.tfu_pre(self.train_formations@, self.unserved_passengers,
             Some(vehicle_idx), None::<Vehicle>, self.removed_nodes(segment, vehicle_idx)),
+        // WHOLE-TOUR CASE ONLY: the precondition `listed_ok` of replace_vehicle_by_dummy -- C10 "vehicle … listings are sorted
+        // and match the stored tours", as far as that body needs it for the vehicle that goes: its type has an id list
+        // (`vehicle_ids_grouped_and_sorted[&vehicle_type_id]`), which is sorted and holds the id (`binary_search(..).unwrap()`).
+        // Not derivable from rs_ok (sched_ok speaks about the uninterpreted listing sched_vehicles, not about the grouped id
+        // lists).  (The other precondition of replace_vehicle_by_dummy, tfu_pre for the nodes of the WHOLE tour -- C09 for the
+        // unserved-passenger pair --, IS derived: lemma_whole_tour_case, from tfu_pre for the removed nodes above.)
+        self.removes(segment, vehicle_idx) && self.whole_tour(segment, vehicle_idx) ==> self.listed_ok(vehicle_idx),
     ensures
         // "# Errors: If the vehicle is not a real vehicle an error is returned."; Tour::remove refuses (C12)
         !self.vehicles@.contains_key(vehicle_idx) ==> r is Err, // @obl C13.remove_segment.err_not_real_vehicle
         self.vehicles@.contains_key(vehicle_idx) && !self.seg_removable(segment, vehicle_idx) ==> r is Err, // @obl C13.remove_segment.err_tour_refuses
-        // "If the segment contains all non-depot nodes of the tour, the vehicle is replaced by a dummy."
-        self.removes(segment, vehicle_idx) && self.kept_nodes(segment, vehicle_idx).len() < 3
-            ==> r == spec_replace_by_dummy(self, vehicle_idx), // @obl C13.remove_segment.whole_tour_delegates
-        // otherwise (Tour::remove's contract does not say when the shrunk tour is None): either it delegated, or
-        // the provider keeps a tour and the operation succeeds with exactly the documented effect
-        self.removes(segment, vehicle_idx) && r != spec_replace_by_dummy(self, vehicle_idx) && self.id_left(segment, vehicle_idx) ==> r is Ok, // @obl C13.remove_segment.ok_when_tour_accepts
-        // D11: ids are 16 bit and never reused: when all 2^16 have been handed out and the removed trips would need a new
+        // otherwise the operation succeeds (in both cases: whether the provider keeps a tour or is replaced by a dummy) ...
+        self.removes(segment, vehicle_idx) && self.id_left(segment, vehicle_idx) ==> r is Ok, // @obl C13.remove_segment.ok_when_tour_accepts
+        // ... except D11: ids are 16 bit and never reused: when all 2^16 have been handed out and the removed trips would need a new
         // dummy tour, the modification is refused (the unfixed code wrapped around and overwrote the tour stored under id 0)
-        self.removes(segment, vehicle_idx) && r != spec_replace_by_dummy(self, vehicle_idx) && !self.id_left(segment, vehicle_idx) ==> r is Err, // @obl C13.remove_segment.refuses_instead_of_reusing_an_id
-        self.removes(segment, vehicle_idx) && r != spec_replace_by_dummy(self, vehicle_idx) && r is Ok ==>
+        self.removes(segment, vehicle_idx) && !self.id_left(segment, vehicle_idx) ==> r is Err, // @obl C13.remove_segment.refuses_instead_of_reusing_an_id
+
+        // ---- WHOLE-TOUR CASE: "If the segment contains all non-depot nodes of the tour, the vehicle is replaced by a dummy." --
+        // (whole_tour: at most the two depots would be kept.)  The effect is the one of replace_vehicle_by_dummy (its contract,
+        // slices/dummy_ops.vs).  C13 "a vehicle left without activities disappears … removed service trips are handed back (… in
+        // a new dummy tour)": no vehicle / tour under the id, one occurrence of the id leaves the sorted id list of its type,
+        // which stays sorted; ONE new dummy tour under the unused id Dummy(vehicle_counter) holds exactly the service trips of
+        // the tour, in order (none if it serves no service trip)
+        self.removes(segment, vehicle_idx) && self.whole_tour(segment, vehicle_idx) && r is Ok ==>
+            self.vehicle_gone(vehicle_idx, &r->Ok_0), // @obl C13.remove_segment.whole_tour_vehicle_disappears_trips_go_to_one_new_dummy
+        self.removes(segment, vehicle_idx) && self.whole_tour(segment, vehicle_idx) && r is Ok && self.needs_dummy(vehicle_idx) ==>
+            self.trips_in_new_dummy(vehicle_idx, &r->Ok_0), // @obl C13.remove_segment.whole_tour_vehicle_disappears_trips_go_to_one_new_dummy
+        self.removes(segment, vehicle_idx) && self.whole_tour(segment, vehicle_idx) && r is Ok && !self.needs_dummy(vehicle_idx) ==>
+            self.no_new_dummy(&r->Ok_0), // @obl C13.remove_segment.whole_tour_vehicle_disappears_trips_go_to_one_new_dummy
+        // (the tour is the removed block with at most its two depots around it: it holds a service trip iff the block does, and
+        // its service trips are those of the block -- see the clauses for both cases below)
+        self.removes(segment, vehicle_idx) && self.whole_tour(segment, vehicle_idx) ==>
+            self.needs_dummy(vehicle_idx) == has_service(&self.network, self.removed_nodes(segment, vehicle_idx)),
+        // every other vehicle / tour (map equalities: vehicles - v, tours - v), the id lists of the other types, every dummy
+        // tour that was there, the network
+        self.removes(segment, vehicle_idx) && self.whole_tour(segment, vehicle_idx) && r is Ok ==>
+            self.others_untouched(vehicle_idx, &r->Ok_0), // @obl C13.remove_segment.other_tours_untouched
+        // C09: costs
+        self.removes(segment, vehicle_idx) && self.whole_tour(segment, vehicle_idx) && r is Ok ==>
+            r->Ok_0.costs == self.costs - self.tours@[vehicle_idx].costs, // @obl C09.remove_segment.costs_follow_tour
+
+        // ---- PARTIAL CASE (3 or more nodes are kept): the provider keeps a tour -----------------------------------------------
+        self.removes(segment, vehicle_idx) && !self.whole_tour(segment, vehicle_idx) && r is Ok ==>
             r->Ok_0.vehicles@ == self.vehicles@ && r->Ok_0.vehicle_ids_grouped_and_sorted@ == self.vehicle_ids_grouped_and_sorted@
             && r->Ok_0.network == self.network, // @obl C13.remove_segment.vehicle_set_unchanged
-        self.removes(segment, vehicle_idx) && r != spec_replace_by_dummy(self, vehicle_idx) && r is Ok ==>
+        self.removes(segment, vehicle_idx) && !self.whole_tour(segment, vehicle_idx) && r is Ok ==>
             self.provider_shrunk(segment, vehicle_idx, r->Ok_0.tours@), // @obl C13.remove_segment.provider_loses_exactly_segment
-        self.removes(segment, vehicle_idx) && r != spec_replace_by_dummy(self, vehicle_idx) && r is Ok ==>
+        self.removes(segment, vehicle_idx) && !self.whole_tour(segment, vehicle_idx) && r is Ok ==>
             self.other_tours_untouched(vehicle_idx, r->Ok_0.tours@), // @obl C13.remove_segment.other_tours_untouched
-        self.removes(segment, vehicle_idx) && r != spec_replace_by_dummy(self, vehicle_idx) && r is Ok
-            && has_service(&self.network, self.removed_nodes(segment, vehicle_idx)) ==>
+        // C09: costs
+        self.removes(segment, vehicle_idx) && !self.whole_tour(segment, vehicle_idx) && r is Ok ==>
+            r->Ok_0.costs == self.costs + r->Ok_0.tours@[vehicle_idx].costs - self.tours@[vehicle_idx].costs, // @obl C09.remove_segment.costs_follow_tour
+
+        // ---- BOTH CASES (the same clause holds whether the provider keeps a tour or not; in the whole-tour case it is derived
+        // from the contract of replace_vehicle_by_dummy, which speaks about the nodes of the whole tour: lemma_whole_tour_case) ----
+        // "All service trips are added to a new dummy tour."
+        self.removes(segment, vehicle_idx) && r is Ok && has_service(&self.network, self.removed_nodes(segment, vehicle_idx)) ==>
             self.trips_handed_back(self.removed_nodes(segment, vehicle_idx), r->Ok_0.dummy_tours@, r->Ok_0.dummy_ids_sorted@), // @obl C13.remove_segment.removed_trips_in_new_dummy_tour
-        self.removes(segment, vehicle_idx) && r != spec_replace_by_dummy(self, vehicle_idx) && r is Ok
-            && has_service(&self.network, self.removed_nodes(segment, vehicle_idx)) ==>
+        // the counter advances exactly when a new dummy tour takes the removed service trips
+        self.removes(segment, vehicle_idx) && r is Ok && has_service(&self.network, self.removed_nodes(segment, vehicle_idx)) ==>
             r->Ok_0.vehicle_counter == self.vehicle_counter + 1, // @obl C13.remove_segment.fresh_dummy_id
-        self.removes(segment, vehicle_idx) && r != spec_replace_by_dummy(self, vehicle_idx) && r is Ok
-            && !has_service(&self.network, self.removed_nodes(segment, vehicle_idx)) ==>
+        self.removes(segment, vehicle_idx) && r is Ok && !has_service(&self.network, self.removed_nodes(segment, vehicle_idx)) ==>
             r->Ok_0.dummy_tours@ == self.dummy_tours@ && r->Ok_0.dummy_ids_sorted@ == self.dummy_ids_sorted@
             && r->Ok_0.vehicle_counter == self.vehicle_counter, // @obl C13.remove_segment.no_trip_no_dummy
-        self.removes(segment, vehicle_idx) && r != spec_replace_by_dummy(self, vehicle_idx) && r is Ok ==>
+        // the provider leaves the formation of every removed activity (order kept), no other formation changes
+        self.removes(segment, vehicle_idx) && r is Ok ==>
             self.formations_follow(self.removed_nodes(segment, vehicle_idx), vehicle_idx, r->Ok_0.train_formations@), // @obl C13.remove_segment.formations_elsewhere_untouched
         // C10: the ids stay valid (in particular every dummy id is below the counter: the next id is fresh again)
-        self.removes(segment, vehicle_idx) && r != spec_replace_by_dummy(self, vehicle_idx) && r is Ok ==> r->Ok_0.ids_ok(), // @obl C10.remove_segment.ids_stay_valid
-        // C09: unserved passengers, costs, depot usage; C15 / C10: rotation cycles
-        self.removes(segment, vehicle_idx) && r != spec_replace_by_dummy(self, vehicle_idx) && r is Ok ==>
+        self.removes(segment, vehicle_idx) && r is Ok ==> r->Ok_0.ids_ok(), // @obl C10.remove_segment.ids_stay_valid
+        // C09: unserved passengers, depot usage; C15 / C10: rotation cycles
+        self.removes(segment, vehicle_idx) && r is Ok ==>
             self.unserved_follow(self.removed_nodes(segment, vehicle_idx), vehicle_idx, r->Ok_0.unserved_passengers), // @obl C09.remove_segment.unserved_passengers_delta_exact
-        self.removes(segment, vehicle_idx) && r != spec_replace_by_dummy(self, vehicle_idx) && r is Ok ==>
-            r->Ok_0.costs == self.costs + r->Ok_0.tours@[vehicle_idx].costs - self.tours@[vehicle_idx].costs, // @obl C09.remove_segment.costs_follow_tour
-        self.removes(segment, vehicle_idx) && r != spec_replace_by_dummy(self, vehicle_idx) && r is Ok ==>
+        self.removes(segment, vehicle_idx) && r is Ok ==>
             usage_exact(r->Ok_0.depot_usage@, &self.network, r->Ok_0.vehicles@, r->Ok_0.tours@), // @obl C09.remove_segment.depot_usage_exact
-        self.removes(segment, vehicle_idx) && r != spec_replace_by_dummy(self, vehicle_idx) && r is Ok ==>
+        self.removes(segment, vehicle_idx) && r is Ok ==>
             self.transitions_follow(vehicle_idx, r->Ok_0.next_period_transitions@, r->Ok_0.maintenance_violation, r->Ok_0.vehicles@, r->Ok_0.tours@), // @obl C10.remove_segment.transitions_follow_new_tours
 //@first
         hide(Schedule::rs_ok);
@@ -398,6 +489,20 @@ use self::tfu::*;
         proof {
             assert(*tour == t0);
             assert(removed_path.node_sequence@ == removed);
+            // the case split is decided by Tour::remove (C13.remove.no_tour_iff_no_activity_left; the provider is a real vehicle):
+            // no tour is returned iff whole_tour.  (Guarded by the specification-level condition, not by `shrinked_tour is None`:
+            // a wrong case split in the code shows up at the tagged postconditions of the other case.)
+            if self.removes(segment, vehicle_idx) && self.whole_tour(segment, vehicle_idx) {
+                // what the call of replace_vehicle_by_dummy needs (tfu_pre for the whole tour), and its vocabulary (over the nodes
+                // of the whole tour) in terms of the removed nodes: an id is needed in the same cases, same service trips, same
+                // activities, same passengers
+                lemma_whole_tour_case(self, segment, vehicle_idx);
+                // (the two predicates have the same text; offered for every result: the call is the tail of the match arm)
+                assert forall|s1: Schedule| #[trigger] self.rd_transitions_follow(vehicle_idx, &s1) implies
+                    self.transitions_follow(vehicle_idx, s1.next_period_transitions@, s1.maintenance_violation, s1.vehicles@, s1.tours@) by {
+                    reveal(Schedule::transitions_follow);
+                }
+            }
         }
 //@before "self.update_train_formation"
                 let ghost nt = new_tour;
